@@ -197,26 +197,37 @@ prop('C11', level='other',
                  'job perturbs completion order with injected delays. BycycleGroup.fit: bounded.')
 
 prop('C12', level='other',
-     units=[GF + 'compute_features_3d', GF + 'compute_features_2d', 'bycycle.group.utils.check_kwargs_shape'],
+     units=[GF + 'compute_features_3d', GF + 'compute_features_2d', GF + '_proxy_3d', 'bycycle.group.utils.check_kwargs_shape'],
      jobs=['group_3d', 'kwargs_shape'],
-     unit_jobs={GF + 'compute_features_3d': ['group_3d']},
+     unit_jobs={GF + 'compute_features_3d': ['group_3d'], GF + '_proxy_3d': ['group_3d']},
      no_input_kinds=('frame',),
      explanation='Proved for all extents (n0, n1), size-1 dimensions included: with axis=(0,1) the nested result has n0 rows and '
                  'entry [i][j] is CF(sigs[i][j], options at [i][j]) for a shared dict, None and a 2-D option list - through the '
                  'reshape contract (row-major), the callee contract of compute_features_2d and two nested loop invariants over the '
                  'copy-back index i*n1 + j (the i + j index of the pinned tree fails inv-keep with the model n1 = 2, (i, j) = (1, 0)); '
-                 'wrong option-list shapes raise ValueError. Bounded so far: axis=0 and axis=1 (per-slice epoched analyses, '
-                 'transposition) - all shapes up to 2x2 (3x3).')
+                 'wrong option-list shapes raise ValueError. With axis=0 entry [i][j] is table j of the epoched analysis of '
+                 'the slice sigs[i] (= epoch_of(CF(flat(sigs[i]), ..., return_samples=True, options of slice i), n2, j), the statement '
+                 'proved for compute_features_2d(axis=None) and carried by the contract of _proxy_3d), with axis=1 entry [i][j] is '
+                 'table i of the epoched analysis of sigs[:, j] - through swapaxes, the per-slice pairing zip(sigs, kwargs) with a '
+                 'shared option set repeated once per slice, the ordered imap contract and the final zip(*...) transposition; shared '
+                 'dict, None and per-slice 1-D lists. The bounded job repeats all of this on shapes up to 2x2 (3x3) against '
+                 'independent per-slice calls.')
 
-prop('C13', level='other', units=[DF + 'epoch_df'], jobs=['epoch_df', 'group_epoched'],
-     unit_jobs={DF + 'epoch_df': ['epoch_df']},
+prop('C13', level='other', units=[DF + 'epoch_df', GF + 'compute_features_2d'], jobs=['epoch_df', 'group_epoched'],
+     unit_jobs={DF + 'epoch_df': ['epoch_df'], GF + 'compute_features_2d': ['group_epoched']},
      explanation='Proved for an ARBITRARY epoch e and any number of epochs / rows (per-iteration postcondition of the loop in '
                  'epoch_df): the window is (e*L, (e+1)*L] on the closing side extremum; the table built for it consists of exactly '
                  'the cycles whose closing extremum lies in the window, in the original order, every value unchanged, every sample_* '
                  'column reduced by e*L; the input table is untouched (frame). That every cycle lies in exactly one such window '
                  '(partition) and that the tables are collected in epoch order is bounded (exhaustive small tables incl. boundaries on '
-                 'cycle ends and empty epochs); compute_features_2d(axis=None) - flatten, analyse once, epoch, optional per-epoch '
-                 're-labelling - is bounded (against flattened analysis + epoch_df, single option set and per-epoch lists).')
+                 'cycle ends and empty epochs). compute_features_2d(axis=None), proved over opaque signals / option sets / tables for any '
+                 'number of rows: the result has one entry per row and entry e is epoch_df\'s table e (epoch length = row length) of '
+                 'ONE analysis of the concatenated rows with return_samples=True and the given options (popping center_extrema and '
+                 'passing it back explicitly is the identity: its default is read from compute_features\' real signature); with a '
+                 'per-epoch list the flattened analysis uses the first option set and entry e is then re-labelled by the detector '
+                 'named in option set e (default cycles) with option set e\'s own thresholds (loop invariant over the in-place pops '
+                 'and stores; dictionary laws get_k(drop_k2(o)) = get_k(o) as axioms). The bounded job group_epoched compares with the '
+                 'flattened analysis + epoch_df on real signals.')
 
 OB = 'bycycle.objs.fit.'
 prop('C14', level='other',
